@@ -128,6 +128,49 @@ def _save_replay(pid, case, violations, tag):
     return path
 
 
+def _run_fuzz(pid, runs, seed, procs, violations_found, known, mod):
+    """Run vf.fuzz in `procs` processes (seeds seed*1000+k); append violations; return a summary for evidence."""
+    import subprocess
+    import tempfile
+
+    tmp = tempfile.mkdtemp(prefix="bbfz_")
+    env = dict(os.environ)
+    deps = os.path.join(core.VERIF_DIR, ".deps")
+    env["PYTHONPATH"] = os.pathsep.join([core.VERIF_DIR, deps, env.get("PYTHONPATH", "")])
+    ps = []
+    for k in range(procs):
+        out = os.path.join(tmp, f"{k}.json")
+        ps.append((out, subprocess.Popen([sys.executable, "-W", "ignore", "-m", "vf.fuzz", pid, str(runs), str(seed * 1000 + k), out], env=env, stdout=subprocess.DEVNULL, stderr=subprocess.DEVNULL, cwd=core.VERIF_DIR)))
+    summary = {"processes": procs, "runs_per_process": runs, "fuzzer_calls": 0, "executions": 0, "distinct_nontrivial_sum_over_processes": 0, "available": True, "violations": 0}
+    for k, (out, p) in enumerate(ps):
+        p.wait()
+        if not os.path.exists(out):
+            summary["available"] = False
+            summary.setdefault("errors", []).append(f"process {k} exited {p.returncode} without a summary")
+            continue
+        d = json.load(open(out))
+        if not d.get("available", False):
+            summary["available"] = False
+            summary["reason"] = d.get("reason")
+            continue
+        summary["fuzzer_calls"] += d["fuzzer_calls"]
+        summary["executions"] += d["executions"]
+        summary["distinct_nontrivial_sum_over_processes"] += d["distinct_nontrivial"]
+        if d.get("failure"):
+            f = d["failure"]
+            vs = [core.Violation(**v) for v in f["violations"]]
+            km = getattr(mod, "known_match", None)
+            new = [v for v in vs if not (km and km(f["case"], v) in known)]
+            if new:
+                path = _save_replay(pid, f["case"], new, f"atheris-{new[0].oracle.replace('/', '_')}-seed{seed}-{k}")
+                violations_found.append((new[0].oracle, path, new[0].detail))
+                summary["violations"] += 1
+    import shutil
+
+    shutil.rmtree(tmp, ignore_errors=True)
+    return summary
+
+
 def main(argv=None):
     ap = argparse.ArgumentParser()
     ap.add_argument("pid")
@@ -239,6 +282,12 @@ def main(argv=None):
     for k, n in merged.known.items():
         known_hits[k] = known_hits.get(k, 0) + n
 
+    # ---- 2b. coverage-guided second driver (atheris / libFuzzer), thorough tier of the branch-heavy checks ------
+    fuzz_summary = None
+    fuzz_runs = getattr(mod, "FUZZ", {}).get(a.tier)
+    if fuzz_runs and not violations_found and not harness_errors:
+        fuzz_summary = _run_fuzz(pid, int(fuzz_runs * a.scale), seed, min(workers, 16), violations_found, known, mod)
+
     wall = time.time() - t_start
 
     # ---- 3. report -----------------------------------------------------------------------------
@@ -277,6 +326,7 @@ def main(argv=None):
                     "budget_cases": budget,
                     "time_limit_s": limit,
                     "code_under_test": os.environ.get("VERIF_REPO_SRC", "/repo/src"),
+                    "atheris_driver": fuzz_summary,
                 },
             )
             os.makedirs(os.path.join(core.VERIF_DIR, "evidence"), exist_ok=True)
